@@ -931,6 +931,141 @@ impl<'a> Exec<'a> {
         Ok(())
     }
 
+    /// C17: the tokenizer utility functions follow one output protocol: the return value is the
+    /// full length (tokens, or bytes + NUL), at most `len` elements are written, text is
+    /// NUL-terminated inside the buffer, nothing else is touched. Reference = the Rust functions
+    /// on the tokenizer's own environment.
+    pub fn op_ctok_util(&mut self, which: u8, seed: u64, len: usize, via_clone: bool) -> VResult<()> {
+        let ctok = match self.ctx.ctok.as_ref() {
+            Some(c) => c.clone(),
+            None => return Ok(()),
+        };
+        let mut rng = crate::rng::Rng::new(seed);
+        let nv = self.ctx.n_vocab() as u32;
+        let n_in = rng.range(0, 9);
+        let toks: Vec<u32> = (0..n_in).map(|_| rng.below(nv as usize) as u32).collect();
+        let tk_p: *mut LlgTokenizer = if via_clone {
+            llg_clone_tokenizer(unsafe { &*ctok.tok })
+        } else {
+            ctok.tok
+        };
+        let tk: &LlgTokenizer = unsafe { &*tk_p };
+        let res = (|| -> VResult<()> {
+            match which % 4 {
+                0 | 1 => {
+                    // bytes: decoded ordinary tokens; for the marker variant special tokens are
+                    // spelled \xFF[id] / \xFF<name> in between
+                    let mut bytes: Vec<u8> = vec![];
+                    for t in &toks {
+                        let w = self.ctx.tok_bytes(*t).to_vec();
+                        if w.first() == Some(&0xff) || w.is_empty() {
+                            if which % 4 == 1 {
+                                if rng.chance(0.5) {
+                                    bytes.push(0xff);
+                                    bytes.extend_from_slice(format!("[{}]", t).as_bytes());
+                                } else {
+                                    bytes.extend_from_slice(&w);
+                                }
+                            }
+                        } else {
+                            bytes.extend_from_slice(&w);
+                        }
+                    }
+                    let want: Vec<u32> = if which % 4 == 0 {
+                        tk.tok_env().tokenize_bytes(&bytes)
+                    } else {
+                        tk.tok_env().tokenize_bytes_marker(&bytes).0
+                    };
+                    let mut buf = vec![FILL; len + 2 * GUARD_WORDS];
+                    for i in 0..GUARD_WORDS {
+                        buf[i] = CANARY;
+                        let n = buf.len();
+                        buf[n - 1 - i] = CANARY;
+                    }
+                    let null_out = len == 0 && rng.chance(0.5);
+                    let outp = if null_out { std::ptr::null_mut() } else { unsafe { buf.as_mut_ptr().add(GUARD_WORDS) } };
+                    let r = unsafe {
+                        if which % 4 == 0 {
+                            llg_tokenize_bytes(tk, bytes.as_ptr(), bytes.len(), outp, len)
+                        } else {
+                            llg_tokenize_bytes_marker(tk, bytes.as_ptr(), bytes.len(), outp, len)
+                        }
+                    };
+                    for k in 0..GUARD_WORDS {
+                        if buf[k] != CANARY || buf[buf.len() - 1 - k] != CANARY {
+                            return Err(self.viol("caller_buffer_bounds", "write_outside_caller_buffer", format!("tokenize util {which}: canary around the {len}-token buffer was overwritten")));
+                        }
+                    }
+                    if r != want.len() {
+                        return Err(self.viol("c_result", "tokenize_count", format!("tokenize util {which}: returned {r}, the Rust tokenizer gives {} tokens for {:?}", want.len(), &bytes[..bytes.len().min(24)])));
+                    }
+                    let w = want.len().min(len);
+                    let dest = &buf[GUARD_WORDS..GUARD_WORDS + len];
+                    if dest[..w] != want[..w] || dest[w..].iter().any(|x| *x != FILL) {
+                        return Err(self.viol("caller_buffer_contents", "tokenize_buffer", format!("tokenize util {which}: buffer of {len} holds {:?}, expected prefix of {:?}", &dest[..len.min(8)], &want[..want.len().min(8)])));
+                    }
+                    if want.len() > len {
+                        self.stats.probe("tokenize_buffer_short");
+                    }
+                    self.ev(format!("ctok_util {which} len={len} r={r}"));
+                }
+                _ => {
+                    let flags = if which % 4 == 2 { 0 } else { (which as u32 / 4) % 4 };
+                    let want: Vec<u8> = if which % 4 == 2 {
+                        tk.tok_trie().tokens_dbg(&toks).into_bytes()
+                    } else {
+                        let s = tk.tok_trie().decode_ext(&toks, flags & LLG_DECODE_INCLUDE_SPECIAL != 0);
+                        if flags & LLG_DECODE_VALID_UTF8 != 0 {
+                            String::from_utf8_lossy(&s).to_string().into_bytes()
+                        } else {
+                            s
+                        }
+                    };
+                    const GB: usize = 32;
+                    let mut buf = vec![0x5Au8; len + 2 * GB];
+                    for i in 0..GB {
+                        buf[i] = 0xC7;
+                        let n = buf.len();
+                        buf[n - 1 - i] = 0xC7;
+                    }
+                    let null_out = len == 0 && rng.chance(0.5);
+                    let outp = if null_out { std::ptr::null_mut() } else { unsafe { buf.as_mut_ptr().add(GB) as *mut std::ffi::c_char } };
+                    let r = unsafe {
+                        if which % 4 == 2 {
+                            llg_stringify_tokens(tk, toks.as_ptr(), toks.len(), outp, len)
+                        } else {
+                            llg_decode_tokens(tk, toks.as_ptr(), toks.len(), outp, len, flags)
+                        }
+                    };
+                    for k in 0..GB {
+                        if buf[k] != 0xC7 || buf[buf.len() - 1 - k] != 0xC7 {
+                            return Err(self.viol("caller_buffer_bounds", "write_outside_caller_buffer", format!("text util {which}: canary around the {len}-byte buffer was overwritten")));
+                        }
+                    }
+                    if r != want.len() + 1 {
+                        return Err(self.viol("c_result", "text_length", format!("text util {which} flags {flags}: returned {r}, the Rust function gives {} bytes (+ NUL)", want.len())));
+                    }
+                    if len > 0 {
+                        let w = want.len().min(len - 1);
+                        let dest = &buf[GB..GB + len];
+                        if dest[..w] != want[..w] || dest[w] != 0 || dest[w + 1..].iter().any(|x| *x != 0x5A) {
+                            return Err(self.viol("caller_buffer_contents", "text_buffer", format!("text util {which} flags {flags}: buffer of {len} holds {:?}, expected NUL-terminated prefix of {:?}", &dest[..len.min(16)], &want[..want.len().min(16)])));
+                        }
+                        if want.len() + 1 > len {
+                            self.stats.probe("text_buffer_short");
+                        }
+                    }
+                    self.ev(format!("ctok_util {which} len={len} r={r}"));
+                }
+            }
+            Ok(())
+        })();
+        if via_clone {
+            unsafe { llg_free_tokenizer(tk_p) };
+        }
+        res
+    }
+
     pub fn op_cmask_into(&mut self, h: SlotId, words: usize) -> VResult<()> {
         let nv = self.ctx.n_vocab();
         let exact = nv.div_ceil(32);
